@@ -25,5 +25,5 @@ Proof.
   rewrite mult_IZR. apply c_eq; csimp; ring.
 Qed.
 
-Theorem permute_list_is_sel ord L : permute_list ord L = sel (mkArr [] []) L ord.
+Theorem permute_list_is_sel ord (L : list arr) : permute_list ord L = sel (mkArr [] []) L ord.
 Proof. reflexivity. Qed.
